@@ -41,7 +41,18 @@ impl Opts {
     /// n for quick, m for thorough, scaled.
     pub fn n(&self, quick: u64, thorough: u64) -> u64 {
         // quick sizes in the monitors were calibrated for ~1 s; 8x keeps every quick check within ~10-40 s
-        let v = if self.tier == Tier::Quick { quick.saturating_mul(8).min(thorough.max(quick)) } else { thorough };
+        // thorough sizes were re-calibrated after measuring (target: 5-15 min per property and configuration)
+        let tm: u64 = match self.prop.as_str() {
+            "c02" | "c05" | "c16" => 5,
+            "c04" | "c09" | "c10" | "c12" | "c13" | "c17" => 4,
+            "c06" => 8,
+            "c07" | "c18" => 3,
+            "c11" => 6,
+            "c15" => 10,
+            "c19" => 20,
+            _ => 1,
+        };
+        let v = if self.tier == Tier::Quick { quick.saturating_mul(8).min(thorough.max(quick)) } else { thorough.saturating_mul(tm) };
         ((v as u128 * self.scale_pct as u128 / 100) as u64).max(1)
     }
     pub fn is_thorough(&self) -> bool {
